@@ -352,6 +352,11 @@ func Corpus(o Options) []Case {
 		sig("named foreign type followed by unnamed-typed parameters and results", "M(t dep3.T, names []string, n int, m map[string]bool) (dep3.T, []byte, bool)")
 		sig("param same name as type", "M(LT LT) LT")
 		sig("unnamed parameters and results of a type with a non-ASCII initial", "M(Ärger, *Ärger, []Ärger) (Ärger, error)")
+		// no parameters, several results whose derived names coincide
+		sig("no parameters, two unnamed results of one type", "M() (int, int)")
+		sig("no parameters, unnamed results of types with one derived name", "M() (float64, float32, string, string)")
+		sig("no parameters, a declared result name equal to a derived one", "M() (n int, _ int64)")
+		sig("no parameters, two unnamed foreign interface results", "M() (io.Reader, io.Reader)")
 		sig("result func", "M() func(int, ...string) error")
 		sig("many methods", "A(a int) int\n\tB(b string) string\n\tC(c bool) bool\n\tD()")
 		{
